@@ -35,9 +35,9 @@ RULES = [
      'rlp.Encode fails only on a negative big.Int; the chain id is built with SetUint64 (non-negative), all other items are '
      'byte slices / uint64 (model: bsc_recover false never panics; the pinned behaviour is bsc_recover true, refuted)'),
     (r'bsc/types/header\.go', r'sealHash', 'index', r'hash\[:0\]', B, None, 'zero-length prefix of a 32-byte array'),
-    (r'bsc/types/store\.go', r'DeleteAllSigner', 'index', r'keys\[1\]', G, '@delete_all_signer_no_panic',
-     'every key under the recentSingers prefix is written by SetSigner as "recentSingers/<height>" (state invariant store_wf, '
-     'preserved by every handler: handle_xprop_safe)'),
+    (r'bsc/types/store\.go', r'parseRecentSignerKey', 'index', r'keys\[1\]', G, '@delete_all_signer_strict_no_panic',
+     'guarded by the len(keys) != 2 test just above (0d61436; model delete_all_signer_strict, which never panics; the pinned parser '
+     'indexed unconditionally: delete_all_signer, C15_bsc_signer_key_refuted)'),
     (r'bsc/types/store\.go', r'GetHeightFromIterationKey', 'index|lib', r'.*', B, None,
      'only called by IterateConsensusStateAscending on keys accepted by host.ParseConsensusStateKey (exact length prefix+16)'),
     (r'bsc/types/store\.go', r'SetSigner', 'lib', r'store\.Set', B, None, 'non-empty key "recentSingers/..", value = signer.Bytes() (20 bytes)'),
